@@ -687,6 +687,9 @@ theorem step_inv {d0 : Content} {s : PState} {n : Nat} (h : Inv d0 s n) (st : St
   | create _ => simp [Step.versioned] at hst
   | symRename _ _ => simp [Step.versioned] at hst
   | aliasWrite _ => simp [Step.versioned] at hst
+  | splitCheck _ => simp [Step.versioned] at hst
+  | splitWrite _ => simp [Step.versioned] at hst
+  | splitCommit _ => simp [Step.versioned] at hst
   | override t =>
     obtain ⟨hadv, hle⟩ := syncDoc_adv s.entry t hvlt
     have := h.ver_le
@@ -751,6 +754,7 @@ theorem step_inv {d0 : Content} {s : PState} {n : Nat} (h : Inv d0 s n) (st : St
               ({ content := p.new, version := p.expected + 1 }, some (p.expected + 1)) := by
             rw [hexp] at hsat
             simp [applyDoc, hexp, hsat]
+          unfold applyLocked
           rw [happ]
           simp only
           obtain ⟨hp1, hp2, hp3⟩ := h.pending_ok i p hp
@@ -821,6 +825,7 @@ theorem step_inv {d0 : Content} {s : PState} {n : Nat} (h : Inv d0 s n) (st : St
         · -- conflict: the synced entry stays
           have happ : applyDoc s.entry p.disk p.expected p.new = (syncDoc s.entry p.disk, none) := by
             simp [applyDoc, hexp]
+          unfold applyLocked
           rw [happ]
           simp only
           refine h.step_entry _ hadv (by omega) _ ?_ ?_
@@ -869,6 +874,29 @@ def symRenameTrace : List Step :=
 0's unlocked read and its locked section -/
 def aliasTrace : List Step :=
   [.beginOpen 0, .finish 0, .beginApply 0 1 "A".toList, .aliasWrite "B1".toList, .finish 0]
+
+/-- two honest writers with the same expected version against the torn (non-atomic) variant of
+the locked section: both pass the check before either commits -/
+def splitTrace : List Step :=
+  [.beginOpen 0, .finish 0, .beginOpen 1, .finish 1,
+   .beginApply 0 1 "A".toList, .beginApply 1 1 "B".toList,
+   .splitCheck 0, .splitCheck 1, .splitWrite 1, .splitWrite 0, .splitCommit 0, .splitCommit 1]
+
+/-- strictly increasing versions that are each `expected + 1`: no two successes share an expected
+version -/
+theorem expected_distinct (l : List Success) (h1 : ∀ ev ∈ l, ev.version = ev.expected + 1)
+    (h2 : l.Pairwise (fun a b => a.version < b.version)) :
+    l.Pairwise (fun a b => a.expected ≠ b.expected) := by
+  induction l with
+  | nil => exact List.Pairwise.nil
+  | cons a rest ih =>
+    rw [List.pairwise_cons] at h2 ⊢
+    refine ⟨?_, ih (fun ev hev => h1 ev (by simp [hev])) h2.2⟩
+    intro b hb
+    have ha := h1 a (by simp)
+    have hb' := h1 b (by simp [hb])
+    have := h2.1 b hb
+    omega
 
 end Proto
 
